@@ -103,6 +103,7 @@ theorem stepB_effect (F : Plugin.Facts) (cs : CState) (m : Move) (hc : Coherent 
     apply ofq; dsimp only [step]
     split <;> split <;> exact Quiet7.of_eq rfl rfl rfl rfl
   | dropEvent i => apply ofq; dsimp only [step]; split <;> exact Quiet7.of_eq rfl rfl rfl rfl
+  | fipSync => exact ofq _ (Quiet7.of_eq rfl rfl rfl rfl)
   | filter ns name nodes ch fault =>
     have g := filter7_grow (withFaults s fault 0) ns name nodes ch
     rw [filter7_good] at g
